@@ -25,23 +25,34 @@ EXH_RAW = 42      # the value requested in the exhaustive words (stale 10, third
 
 
 # ----------------------------------------------------------------------------- cases
-def mk_case(kind, tracking, hold, late, initial, start, events, label, via_device=False, display=None):
-    """kind = target id of harness/setm.py (the four base ids are the kind names)"""
+def mk_case(kind, tracking, hold, late, initial, start, events, label, via_device=False, display=None, fresh=None):
+    """kind = target id of harness/setm.py (the four base ids are the kind names).
+    fresh: Parameter.set on the object fetched from device.data right before each call; otherwise on the object the
+    client got before the history (a KEPT handle, across every later report); default: alternate deterministically"""
+    if fresh is None:
+        fresh = (len(events) + start // 125 + int(tracking)) % 3 == 0
     return dict(kind=kind, tracking=bool(tracking), hold=bool(hold), late=bool(late), initial=list(initial),
-                start=start, events=list(events), label=label, via_device=bool(via_device), display=display)
+                start=start, events=list(events), label=label, via_device=bool(via_device), display=display, fresh=bool(fresh))
 
 
 def parse_corpus_line(ln):
-    """<target id> <tracking> <hold> <late> <value> <min> <max> <start> [d=<display value as JSON>] <event>*"""
+    """<target id> <tracking> <hold> <late> <value> <min> <max> <start> [d=<display as JSON>] [dev=1] [fresh=1] <event>*
+    dev=1: through Device.set(name, value, retries) (timeout 5000 only); fresh=1: object fetched right before the call"""
     import json
     w = ln.split()
-    display = None
+    display, via, fresh = None, False, False
     ev = w[8:]
-    if ev and ev[0].startswith("d="):
-        display = json.loads(ev[0][2:])
+    while ev and "=" in ev[0] and ev[0].split("=")[0] in ("d", "dev", "fresh"):
+        k, val = ev[0].split("=", 1)
+        if k == "d":
+            display = json.loads(val)
+        elif k == "dev":
+            via = val == "1"
+        else:
+            fresh = val == "1"
         ev = ev[1:]
     return mk_case(w[0], w[1] == "1", w[2] == "1", w[3] == "1", (int(w[4]), int(w[5]), int(w[6])), int(w[7]), ev, "corpus",
-                   False, display)
+                   via, display, fresh)
 
 
 def model_line(c):
@@ -61,7 +72,7 @@ def run_impl(c):
     """-> (groups, final clock, local triple, pending_update)"""
     return setm.run_history(c["kind"], c["tracking"], c["hold"], tuple(c["initial"]), c["events"],
                             start_ms=c["start"], late=c["late"], via_device=c.get("via_device", False),
-                            display=c.get("display"))
+                            display=c.get("display"), fresh=c.get("fresh", False))
 
 
 def impl_string(groups, now, loc, pending=False):
@@ -101,7 +112,7 @@ def rand_triple(rng):
 
 
 SCALED_TARGETS = ("ecomax:85", "ecomax:88", "ecomax:108", "mixer1:5", "mixer0:6", "thermostat1:1", "thermostat0:8")
-OTHER_TARGETS = ("ecomax:18", "mixer1:0", "thermostat1:0", "schedule:heating_circulation:p", "schedule:mixer_10:p",
+OTHER_TARGETS = ("profile", "ecomax:18", "mixer1:0", "thermostat1:0", "schedule:heating_circulation:p", "schedule:mixer_10:p",
                  "schedule:mixer_1:p", "schedule:intake_summer:s", "schedule:water_heater_2:p", "schedule:heating:s")
 
 
@@ -232,7 +243,8 @@ def lifetime_case(rng, table):
     """2-3 set() calls on one parameter: one after the other (after True, after False) or overlapping; the later
     values: the original value, the first requested value, out of range, another value in range"""
     tid = rng.choice(setm.BASE_TARGETS) if rng.random() < 0.7 else rng.choice(
-        ("ecomax:88", "mixer1:5", "mixer0:6", "thermostat1:1", "schedule:heating_circulation:p", "schedule:mixer_10:p", "mixer1:0"))
+        ("ecomax:88", "mixer1:5", "mixer0:6", "thermostat1:1", "schedule:heating_circulation:p", "schedule:mixer_10:p", "mixer1:0",
+         "profile", "ecomax:108"))
     tg = setm.target(tid)
     tracking = rng.random() < 0.5
     hold = rng.random() < 0.35
@@ -347,6 +359,13 @@ def sweep_cases(table, tier):
                 held = (raw + 1) % (tg.maxraw + 1) if raw != 254 else 3
                 yield mk_case(tid, True, False, n % 2 == 1, (held, 0, tg.maxraw if tg.size == 2 else 255), 0,
                               [f"c:{raw}:1:2000", "t"], "display-sweep", False, d)
+                # the held RAW number equals the requested DISPLAY number (but not the requested raw value): the call
+                # differs from the held value and must be transmitted -- through Device.set and through Parameter.set
+                if isinstance(d, (int, float)) and not isinstance(d, bool) and 0 <= int(d) <= tg.maxraw and int(d) != raw:
+                    if tier == "quick" and tg.size == 2 and n % 4:
+                        continue
+                    yield mk_case(tid, n % 2 == 0, False, False, (int(d), 0, tg.maxraw if tg.size == 2 else 255), 0,
+                                  [f"c:{raw}:1:5000", "t"], "display-sweep-held-equals-display", n % 3 != 0, d)
 
 
 LETTERS = {
@@ -490,6 +509,8 @@ def check_cases(res, triples):
         inp = {k: c[k] for k in ("kind", "tracking", "hold", "late", "initial", "start", "events", "label")}
         inp["via_device"] = c.get("via_device", False)
         inp["display"] = c.get("display")
+        inp["fresh"] = c.get("fresh", False)
+        res.count("handle:" + ("Device.set (by name)" if c.get("via_device") else "fetched before the call" if c.get("fresh") else "kept across reports"))
         bad_x = [o for g in groups for o in g if o[0] == "X"]
         if bad_x:
             res.fail("spec", inp, m, impl, f"unexpected frame / exception / malformed set request: {bad_x[:3]}")
